@@ -49,6 +49,15 @@ def run_case(case):
     emap = event.EventMap()
     for s in srcs:
         emap.add(s)
+    from vmon.simkit import decoy
+
+    def twin():
+        em2 = event.EventMap()
+        for i, t in enumerate(case["triggers"]):
+            em2.add(event.Source(trigger=t, path=(f"t{i}",)))
+        return EventMonitor(em2, trigger=case["mon_trigger"], data_width=dw, alignment=case["al"])
+
+    decoy(rng, twin)
     dut = EventMonitor(emap, trigger=case["mon_trigger"], data_width=dw, alignment=case["al"])
     summary = {k: case[k] for k in ("n", "dw", "al", "attach")}
     summary["stim"] = case["stim_seed"]
